@@ -34,9 +34,15 @@ P = {
          'missing proved. The filter loops, slicing, search, facet are carried by the bounded stand-in (tables <= 3 rows, all '
          'slice triples).',
          TB + ' Comparable is used through its contract (contracts/lib_order.py), itself discharged by C04.ladder.', TECH_D),
- 'C01': B('All interleavings of next() on 2 (thorough: 3) live iterators with abandonment and a fresh pass, over the view constructors incl. the caching ones, vs the solo pass of an identical fresh view.'),
+ 'C01': (True, 'proof',
+         'Write-set obligations of the non-interference lemma: for every Table/IterContainer subclass of 28 modules (97 view classes) the set of view attributes and process-wide state written by __iter__ and the self-methods it reaches is computed from the real AST and must be empty or within the declared, justified set of the stateful views (sort caches, hash-join lookups, cache(), fromdicts(generator), clock); sort-cache generators proved not to read shared cache attributes.'
+         ' Bounded stand-in for the rest: ' 'All interleavings of next() on 2 (thorough: 3) live iterators with abandonment and a fresh pass, over the view constructors incl. the caching ones, vs the solo pass of an identical fresh view.',
+         TB + ' The lemma itself (induction over schedules) is stated, not machine-checked; stateful-view interleavings are decided by the bounded schedule enumeration only.', TECH_D),
  'C02': B('Instrumented sources count pulled rows: 0 at construction (<= header for the named exceptions), pulls for k output rows identical for 100- and 10000-row sources, for the streaming operator catalogue and compositions.'),
- 'C03': B('Deep snapshots of sources (lists of mutable lists, ragged) before/after full and partial iteration of the operator catalogue; every yielded row compared with its copy at the end.'),
+ 'C03': (True, 'proof',
+         'Frame obligations at every in-place mutation site of the 15 transform modules (129 sites): a flow-sensitive origin analysis over the real AST proves the receiver is a container created in the same activation and not yet yielded (fresh / source / argument / yielded lattice, branches merged conservatively, loops to fixpoint); the stateless-body proofs of C12/C13 add symbolic frame obligations on Source/Yielded objects.'
+         ' Bounded stand-in for the rest: ' 'Deep snapshots of sources (lists of mutable lists, ragged) before/after full and partial iteration of the operator catalogue; every yielded row compared with its copy at the end.',
+         TB + ' Origin analysis is intra-procedural and syntactic about what creates a fresh container; callbacks assumed non-mutating.', TECH_D),
  'C05': B('sort/mergesort vs sorted(enumerate(rows)) under the C04 reference ordering for all small tables x key forms x reverse x buffersize 1..n+1,None x cache x passes; mergesort == sort(cat).'),
  'C06': B('All pairs of small tables (None/mixed/compound keys, ragged, header-only, prefixes, missing) for the seven join operators vs a nested-loop relational reference: header, multiset, key order.'),
  'C07': B('Hash joins vs the relational reference and vs their sort-merge twins, cache on/off, two passes, streamed-side order; lookup family vs a reference dict incl. strict.'),
@@ -44,13 +50,22 @@ P = {
  'C09': B('Grouping/aggregation operators vs a dictionary-based reference grouping (ascending key order, input order inside groups, conservation of counts and sums) x spec forms x buffersize/presorted.'),
  'C10': B('duplicates/unique/distinct/conflicts/isunique vs key-multiplicity reference for all small rectangular tables x key forms incl. header-only, zero-field.'),
  'C11': B('Every sort-backed operator x buffersize x cache x tempdir x config.sort_buffersize x presorted vs the default call; cache clause over (edit, iterate) histories with pull counting.'),
- 'C12': B('Every field/row transform of the statement vs a cell-by-cell reference over positional tables with ragged rows, duplicate names, all selections and insertion indices.'),
+ 'C12': (True, 'proof',
+         'asindices is proved with an inductive loop invariant for any number of selectors (indices in range) and exactly for 1-2 selectors; itercut, iterstack, iteraddfield, iteraddrownumbers, setheader/extendheader/pushheader are proved cell-exact per data row by the stateless-body rule for all tables, row lengths, indices and flags (one output row per input row, only the requested cells change, padding/trimming as documented, no IndexError); iterfieldconvert.transform_row proved per cell.'
+         ' Bounded stand-in for the rest: ' 'Every field/row transform of the statement vs a cell-by-cell reference over positional tables with ragged rows, duplicate names, all selections and insertion indices.',
+         TB + ' asindices contract used modularly; stateless-body composition is the engine meta-theorem.', TECH_D),
  'C14': B('Reshape round trips (melt/recast, transpose, flatten/unflatten, dicts/columns) and cell-exact expansion operators over all small rectangular tables, key/variable splits, periods.'),
  'C15': B('to*/append*/from* round trips over a hostile cell alphabet x encodings x csv dialect arguments x source kinds x header flags; bytes of to+append == to(cat).'),
  'C16': B('Pass-through views yield exactly the wrapped rows; tee targets byte-identical to to*; cache() under all pass schedules and interleavings.'),
- 'C17': B('sqlite3: prior contents x source failure at every row index x handle kind x commit flag for todb/appenddb, observed through a fresh connection; fromdb(todb(t)) == t.'),
+ 'C17': (True, 'proof',
+         'Typestate proof over the effect trace: todb/appenddb/_todb/_todb_dbapi_{connection,cursor,mkcurs} are executed from the real AST on EVERY path with every external call (connect, cursor, execute, executemany, close, commit) and every source next() allowed to raise; on each path: no commit when an exception escapes, at most one commit and only after executemany completed, commit=False never commits, DELETE+INSERT+commit on one connection, petl-opened connections opened transactional and closed last, caller handles never closed, header consumed before any statement.'
+         ' Bounded stand-in for the rest: ' 'sqlite3: prior contents x source failure at every row index x handle kind x commit flag for todb/appenddb, observed through a fresh connection; fromdb(todb(t)) == t.',
+         TB + ' T8 (DB-API transaction visibility) assumed; _quote/_placeholders assumed (bounded-checked); create=False.', TECH_D),
  'C18': B('Private tempdir: every abandonment point / release order / source failure / pass count for buffered sorts and the fromdicts spill file; directory empty afterwards, surviving iterators complete.'),
- 'C19': B('Every subset of failing positions x three policies x argument vs config default x errorvalue for convert/fieldmap/rowmap/rowmapmany vs the policy reference, stepped with next().'),
+ 'C19': (True, 'proof',
+         'transform_value and transform_row of the real iterfieldconvert and the row loop of iterrowmap are proved against the three-way policy for ALL values, converters (uninterpreted callbacks that may raise an exception of any class) and positions: errorvalue / exception object / re-raise at the failing cell or row, non-failing cells identical, lazily failing mapper results included.'
+         ' Bounded stand-in for the rest: ' 'Every subset of failing positions x three policies x argument vs config default x errorvalue for convert/fieldmap/rowmap/rowmapmany vs the policy reference, stepped with next().',
+         TB + ' Callbacks deterministic; callback exception classes unconstrained (any Exception subclass).', TECH_D),
  'C20': B('Every public transform/util operator x every position of the header-only table x header shapes 0/1/3 fields: never raises, returns its zero-row definition.'),
 }
 REASON_NOT_YET = 'check not built yet in this round (work in progress; see DESIGN.md section 8)'
